@@ -1,5 +1,5 @@
 // govc:pkg .
-// govc:bound CountingWindow(N) for N in 1..3 (1..5 with GOVC_BOUND=thorough) x 3 random feeds (12 thorough) of 30 rows (80 thorough) over 6 keys: two strings (one holding '|'), two integers, and the NULL key written both as an explicit nil and as a missing column
+// govc:bound CountingWindow(N) for N in 1..3 (1..5 with GOVC_BOUND=thorough) x 3 random feeds (12 thorough) of 30 rows (80 thorough) over 6 keys: two strings (one holding '|'), two integers, and the NULL key written both as an explicit nil and as a missing column; the feed is paced (at most 4 results outstanding) so that no overflow drop occurs
 // Bounded stand-in (NOT a proof) for the path from the counting window to the delivered result, which crosses the
 // group aggregator (reflection based, outside the contracts): for every key the i-th delivered result aggregates exactly
 // that key's rows (i-1)*N+1 .. i*N in arrival order, one result per delivery, nothing for the trailing remainder, no row
@@ -54,6 +54,7 @@ func TestGovcBounded_counting_batches(t *testing.T) {
 				deliveries = append(deliveries, rs)
 			})
 			perKey := map[string][]int{}
+			due := 0
 			for id := 1; id <= length; id++ {
 				k := pool[rng.Intn(len(pool))]
 				row := map[string]any{"id": id}
@@ -63,6 +64,23 @@ func TestGovcBounded_counting_batches(t *testing.T) {
 				name := govcCountKeyName(k.v, k.present)
 				perKey[name] = append(perKey[name], id)
 				s.Emit(row)
+				if len(perKey[name])%n == 0 {
+					due++
+				}
+				// pace the feed: at most 4 results outstanding, so that the window's output buffer never overflows
+				// (overflow drops are the business of C19, not of this property)
+				for pace := time.Now().Add(15 * time.Second); time.Now().Before(pace); {
+					mu.Lock()
+					got := 0
+					for _, d := range deliveries {
+						got += len(d)
+					}
+					mu.Unlock()
+					if got+4 >= due {
+						break
+					}
+					time.Sleep(200 * time.Microsecond)
+				}
 			}
 			want := 0
 			for _, ids := range perKey {
